@@ -1,6 +1,58 @@
 """Counterexample -> replay file (+ native replay where a driver exists)."""
 import os, json, re, subprocess, sys, hashlib
 
+def build_oracle(root, unit, out, wrap_c, keep):
+    """Compile the spec text of a unit (generated C file up to the prototypes: prelude, structs, constants, spec functions) plus the given
+    wrapper functions as C; every symbol except `keep` becomes local.  Returns (object path, None) or (None, error dict)."""
+    sys.path.insert(0, os.path.join(root, 'tools'))
+    import runcheck
+    m, U, cfile = runcheck.build_unit(unit, out, save=False)
+    text = open(cfile).read()
+    cut = text.index('/* ---- prototypes ---- */')
+    spec_c = os.path.join(out, 'spec_oracle.c')
+    with open(spec_c, 'w') as f:
+        f.write('#define __CPROVER_assert(c, m) ((void)0)\n' + text[:cut] + wrap_c)
+    obj = os.path.join(out, 'spec_oracle.o')
+    c1 = subprocess.run(['gcc', '-std=gnu11', '-O1', '-w', '-c', spec_c, '-o', obj], capture_output=True, text=True)
+    if c1.returncode != 0:
+        return None, {'reproduced': False, 'note': 'spec oracle did not compile', 'stderr': c1.stderr[-1500:]}
+    c2 = subprocess.run(['objcopy'] + sum([['-G', k] for k in keep], []) + [obj], capture_output=True, text=True)
+    if c2.returncode != 0:
+        return None, {'reproduced': False, 'note': 'objcopy failed', 'stderr': c2.stderr[-500:]}
+    return obj, None
+
+
+def build_native(root, out, cpp, objs, exe, extra_src=()):
+    """Link a native replay driver against the real texellib of /repo (rebuilt first)."""
+    repo = os.environ.get('VERIF_REPO', '/repo')
+    L = repo + '/lib/texellib'
+    subprocess.run(['cmake', '--build', repo + '/_build', '--target', 'texellib', '-j8'], capture_output=True)
+    cmd = ['g++', '-std=c++11', '-O1', '-fno-access-control', '-pthread'] + ['-I' + L + d for d in ('', '/util', '/hw', '/tb', '/nn', '/book', '/debug', '/tb/gtb', '/tb/syzygy')] + \
+          ['-I' + repo + '/lib/texelutillib', '-I' + repo + '/lib/texelutillib/pg'] + [os.path.join(root, 'replay', cpp)] + list(extra_src) + list(objs) + [repo + '/_build/lib/texellib/libtexellib.a', '-o', exe, '-lrt']
+    c = subprocess.run(cmd, capture_output=True, text=True)
+    if c.returncode != 0:
+        return {'reproduced': False, 'note': 'native driver did not compile', 'stderr': c.stderr[-1500:]}
+    return None
+
+
+def trace_values(doc):
+    vals = {}
+    for k, v in doc.get('inputs', []):
+        vals[k] = v           # last assignment wins
+    return vals
+
+
+def num(v, default=0):
+    if v in ('TRUE', 'true'):
+        return 1
+    if v in ('FALSE', 'false'):
+        return 0
+    try:
+        return int(str(v).rstrip('ul'))
+    except (ValueError, TypeError):
+        return default
+
+
 def make_replay(prop, r, f, root):
     name = re.sub(r'[^\w.\-]', '_', '%s-%s.%s-%s' % (prop, r['unit'], r['group'], f.get('property') or 'obligation'))[:150]
     path = os.path.join(root, 'replays', name + '.json')
